@@ -135,7 +135,14 @@ def specText (edited : Bool) (v : View) : String :=
   "ok " ++ flagsText edited true true HeaderFlags.allOk ++ " " ++ viewText v
 
 /-- the final state must satisfy C07's quantifier: canonical, consistent starts -/
-def inQuantifier (m : AbstractModel) : Bool := WF m && Canonical m && (view m).isSome
+def inQuantifier (m : AbstractModel) : Bool := WF m && CanonicalAny m && (view m).isSome
+
+/-- input class of the recorded finding: reader-supported layout without an inverse encoder -/
+def whyOutside (m : AbstractModel) : String :=
+  if !WF m then "outside:wf" else if !CanonicalAny m then "outside:canonical" else "outside:refs"
+
+def kfTags (m : AbstractModel) : List String :=
+  if hasUnwritable m then ["kf:c07.writer-unsupported-layout"] else []
 
 def handle (line : String) : String :=
   match fields line with
@@ -147,8 +154,8 @@ def handle (line : String) : String :=
       let (ans, _) := modelRun file []
       let input := "edit " ++ Bytes.toHex file
       match inQuantifier a, view a with
-      | true, some v => answer input (specText false v) [] (some ans)
-      | _, _ => answer input ans ["triv", "outside"]
+      | true, some v => answer input (specText false v) (kfTags a) (some ans)
+      | _, _ => answer input ans ["triv", whyOutside a]
   | "edit" :: toks =>
     let (mt, et) := splitBar toks
     match parseModel mt, et.mapM parseEdit with
@@ -162,9 +169,9 @@ def handle (line : String) : String :=
         match applyEdits a es with
         | some a' =>
           match inQuantifier a && inQuantifier a', view a' with
-          | true, some v => answer input (specText (!es.isEmpty) v) [] (some ans)
-          | _, _ => answer input ans ["triv", "outside"]
-        | none => answer input ans ["triv", "outside"]
+          | true, some v => answer input (specText (!es.isEmpty) v) (kfTags a') (some ans)
+          | _, _ => answer input ans ["triv", if inQuantifier a then whyOutside a' else whyOutside a]
+        | none => answer input ans ["triv", "outside:edit"]
     | _, _ => bad
   | "wbytes" :: toks =>
     let (mt, et) := splitBar toks
